@@ -95,7 +95,8 @@ func clusterOnce(cli bool, dedup bool, ic pmtiles.Compression, tt, tc int, data 
 	flat = before.flat
 	if len(flat) > 0 {
 		z0, _, _ := pmtiles.IDToZxy(flat[0].TileID)
-		z1, _, _ := pmtiles.IDToZxy(flat[len(flat)-1].TileID)
+		lastE := flat[len(flat)-1]
+		z1, _, _ := pmtiles.IDToZxy(lastE.TileID + uint64(lastE.RunLength) - 1) // the last ADDRESSED tile
 		hh.MinZoom, hh.MaxZoom, hh.CenterZoom = z0, z1, z0
 		var addressed uint64
 		offs := map[uint64]bool{}
